@@ -308,6 +308,13 @@ async def execute(gen, ops, w: SockWorld, run: Run, counters=None):
             w.add_odd_subscribers()
         elif o == "sync_raise":
             w.add_sync_raising_subscribers(op[1])
+        elif o == "on_disconnect_open":
+            # a connection subscriber that re-opens the socket from inside the
+            # connected=False notification (e.g. the one close() itself emits)
+            async def reopen():
+                log.add("API.call", name="open")
+                await w.sock.open_socket()
+            w.on_disconnect_hooks.append(reopen)
         elif o == "slow_conn":
             # the next connected=True notification takes op[1] seconds in a subscriber
             w.conn_delays.append(op[1])
